@@ -98,3 +98,24 @@ impl RichIndexerService {
         AsyncRichIndexerHandle::new(self.store.clone(), self.sync.pool(), self.request_limit)
     }
 }
+
+/// verif hooks: the production sync loop run synchronously, explicit append / rollback
+#[cfg(feature = "verif-hooks")]
+impl RichIndexerService {
+    /// one synchronous pass of the production sync loop (catch up with the node's database)
+    pub fn verif_sync_once(&self) {
+        self.sync.verif_try_loop_sync(self.get_indexer())
+    }
+
+    /// append one block
+    pub fn verif_append(&self, block: &ckb_types::core::BlockView) -> Result<(), String> {
+        use ckb_indexer_sync::IndexerSync;
+        self.get_indexer().append(block).map_err(|e| e.to_string())
+    }
+
+    /// roll the last appended block back
+    pub fn verif_rollback(&self) -> Result<(), String> {
+        use ckb_indexer_sync::IndexerSync;
+        self.get_indexer().rollback().map_err(|e| e.to_string())
+    }
+}
